@@ -1,3 +1,4 @@
+import Model.NewWithFS
 import Driver.OS
 open BFS
 namespace Driver
@@ -6,8 +7,13 @@ structure BState where
   w : World := { fs := emptyFS 0 }
   baseStack : List LayerSpec := []
   backupStack : List LayerSpec := []
+  /-- `some (loc, inner)`: the BackupFS was built by the constructor `NewWithFS(inner, loc)` -/
+  ctor : Option (Path × List LayerSpec) := none
 
-def BState.cfg (b : BState) : Cfg := { base := buildFS b.baseStack, backup := buildFS b.backupStack }
+def BState.cfg (b : BState) : Cfg :=
+  match b.ctor with
+  | some (loc, inner) => newWithFS (buildFS inner) loc      -- Model/NewWithFS.lean
+  | none => { base := buildFS b.baseStack, backup := buildFS b.backupStack }
 
 def showUnit : Except Err Unit → List (List Char)
   | .ok () => [s2l "ok"]
@@ -86,7 +92,15 @@ def bfsCmd (st : BState) : List (List Char) → Option (BState × List (List Cha
     match String.ofList c, args with
     | "bfs.begin", [um, bs, ks] => do
         let um ← natOf um
-        pure ({ w := { fs := emptyFS um }, baseStack := parseStack bs, backupStack := parseStack ks }, [s2l "ok"])
+        -- "newwithfs=<location>|<inner stack>": the documented constructor builds both sides
+        if hasPrefix bs (s2l "newwithfs=") then
+          let body := String.ofList (bs.drop 10)
+          match body.splitOn "|" with
+          | loc :: rest =>
+            pure ({ w := { fs := emptyFS um }, ctor := some (loc.toList, parseStack (String.intercalate "|" rest).toList) }, [s2l "ok"])
+          | [] => none
+        else
+          pure ({ w := { fs := emptyFS um }, baseStack := parseStack bs, backupStack := parseStack ks }, [s2l "ok"])
     | "bfs.op", kind :: rest => do
         let m ← runOp st.cfg (String.ofList kind) rest
         match m st.w with
